@@ -25,6 +25,8 @@ __defined_functions = {}
 __definition_node_ids = set()
 # Stores the sorts for all declared or defined symbols
 __sort_lookup = {}
+# Stores the names of declared or defined functions that take arguments
+__nary_functions = set()
 # Stores indices that should not be replaced by constants
 __indices = set()
 # Caches calls to get_sort
@@ -44,6 +46,7 @@ def collect_information(exprs):  # noqa: C901
     global __defined_functions
     global __definition_node_ids
     global __sort_lookup
+    global __nary_functions
     global __indices
     global __datatypes_constants
     global __datatypes_constructors
@@ -78,6 +81,8 @@ def collect_information(exprs):  # noqa: C901
                 continue
             if cmd[2] == tuple():
                 __constants[cmd[1].data] = cmd[3]
+            else:
+                __nary_functions.add(cmd[1].data)
             __definition_node_ids.add(cmd[1].id)
             __sort_lookup[cmd[1].data] = cmd[3]
         if name == 'define-fun':
@@ -93,6 +98,8 @@ def collect_information(exprs):  # noqa: C901
                 continue
             if cmd[2] == tuple():
                 __constants[cmd[1]] = cmd[3]
+            else:
+                __nary_functions.add(cmd[1].data)
             __defined_functions[cmd[1]] = (len(
                 cmd[2]), lambda args, cmd=cmd: nodes.substitute(
                     cmd[4], {cmd[2][i][0]: args[i]
@@ -195,6 +202,7 @@ def reset_information():
     global __defined_functions
     global __definition_node_ids
     global __sort_lookup
+    global __nary_functions
     global __indices
     global __get_sort_cache
     global __datatypes_constants
@@ -204,6 +212,7 @@ def reset_information():
     __defined_functions = {}
     __definition_node_ids = set()
     __sort_lookup = {}
+    __nary_functions = set()
     __indices = set()
     __get_sort_cache = {}
     __datatypes_constants = {}
@@ -220,7 +229,10 @@ def get_variables_with_sort(var_sort):
     Requires that global information has been populated via
     ``collect_information``.
     """
-    return [v for v in __sort_lookup if __sort_lookup[v] == var_sort]
+    return [
+        v for v in __sort_lookup
+        if __sort_lookup[v] == var_sort and v not in __nary_functions
+    ]
 
 
 def introduce_variables(exprs, vars):
